@@ -195,7 +195,7 @@ PROPS.update({
                        "evaluated on the pattern of every miss classified as a known finding (must be 0). Text front end (glue in front of the baselines): Model/Parse.v models "
                        "StringPattern::parse_str and MatrixPattern::parse_str (lines, Unicode white space, $x variables, - holes, the panic on a trailing $); compared through "
                        "try_to_constraint_vec on random texts (sub-check parse); c05_string_parse_print / c05_string_print_parse / c05_matrix_parse_print (printing and parsing are "
-                       "mutually inverse), c05_string_parse_fails_only_on_trailing_dollar, c05_matrix_parse_fails_only_on_trailing_dollar.",
+                       "mutually inverse), c05_string_parse_fails_only_on_trailing_dollar, c05_matrix_parse_fails_only_on_trailing_dollar. The constraint vectors are compared as multisets; c05_{string,matrix}_single_exact_in_any_constraint_order: the matcher built from any list with the same elements as the model's vector reports exactly the occurrences.",
         "technique": "Coq proof on the model of the single-pattern matcher (strings and matrices: exact set of anchors) + differential correspondence with that model + occurrence oracle"},
     "C11": {"subs": ["c11", "pg11", "pgm"], "level": "proof",
         "rule": "random patterns (as for C01) inside sets of 1-4 patterns; each pattern is matched against its own instantiation (variables instantiated "
@@ -247,7 +247,9 @@ PROPS.update({
         "assumptions": COMMON_ASSUMPTIONS + ["IsConnected / HasNodeWeight are treated as opaque atoms in the brute-force faithfulness oracle (their truth is "
                                              "drawn per (predicate, argument values)); IsNotEqual is evaluated on the node assignment",
                                              "the first-satisfied-child reading of a make_det tree (Spec/TreeDet.v) is not part of the property (the traversal follows every satisfied transition "
-                                             "of a deterministic state): it is proved of the shipped trees (c10_*_det_faithful) and evaluated by the harness as information only"],
+                                             "of a deterministic state): it is proved of the shipped trees (c10_*_det_faithful) and evaluated by the harness as information only",
+                                             "the make_det hint of a shipped decomposition is not part of the property (c10_statement_independent_of_make_det_hint): a tree that differs from "
+                                             "the model's only in the hint is counted as tree_make_det_hint_differences, not as a disagreement; a wrong hint shows in C01-C07"],
         "timeout": 3000,
         "explanation": "Theorems c10_*: valid indices, presence of the (index of the) smallest constraint and faithfulness are proved for "
                        "with_children, with_pairwise_mutex, with_transitive_mutex, with_powerset (for every valuation under which conditioned is an "
